@@ -287,7 +287,7 @@ PROPS = {
         "trusted": [KERNELS["eigh"], KERNELS["spglib"], KERNELS["float"]],
     },
     "C03": {
-        "lean": "SymfcModel.Props.C03", "gen": ["SumRule"],
+        "lean": "SymfcModel.Props.C03", "gen": ["SumRule", "O1"],
         "corr": [{"fn": S.corr_sum_rule, "quick": {"n_cases": 36, "sizes": ((6, 6), (6, 6), (3, 3))},
                   "thorough": {"n_cases": 240, "sizes": ((8, 8), (6, 6), (4, 4))}}],
         "oracle": [{"name": "first_order_basis", "fn": o_basis_o1, "quick": {"n": 8}, "thorough": {"n": 40}, "search": {"n": 24}},
